@@ -1,6 +1,9 @@
 """C02 Progress: correct leaders' blocks are finalized once the network is timely."""
+from .. import pool as P
 from .. import sim as S
+from .. import votor as V
 from ..core import ToolError
+from . import c05, c07
 
 
 def configs(ctx):
@@ -71,6 +74,17 @@ def run(ctx):
         run_progress_mc(ctx, "prog4_w4", [2, 2, 2, 1], [3], [], True, 3, 4, 7, timeout=3400)
     ctx.assumptions += ["virtual time: all post-stabilisation delays <= 100 ms (< DELTA = 250 ms)",
                         "crashed < 20% and Byzantine < 20% of the stake"]
+    # 0b. component level: progress of the system rests on the real Votor casting exactly the votes the
+    #     spec's Votor casts (e.g. the finalization vote when the certificate arrives BEFORE the block) and on the
+    #     real pool announcing every ready parent / waking waiters (e.g. a late notarization behind skipped windows)
+    V.run_model(ctx, "votor_handover", c05.HANDOVER, 7, 7 if ctx.tier == "quick" else 9,
+                relevant=lambda fp, fields: any(f.startswith("msgs") or f == "panic" for f in fields),
+                sample=60000 if ctx.tier == "quick" else 600000)
+    for i, (fates, waits) in enumerate(c07.QUICK):
+        if ctx.tier == "quick" and i not in (1, 3):
+            continue
+        P.run_model(ctx, f"pool_chain_q{i}", [2, 2, 1], 0, 9, [P.chain_scenario(fates, waits=waits)],
+                    c07.INVS + ["NoPanic"], P.rel_c07, sample=(150000 if ctx.tier == "quick" else 1000000))
     judged_any = False
     for sc in configs(ctx):
         name = sc.pop("name")
